@@ -147,9 +147,29 @@ def truncation_obligations(ck, fields):
         return
     tail = fn.body[start:]
     head = u(ast.Module(body=fn.body[:start], type_ignores=[]))
-    ck.ob('FMT-truncation-code', tf.loc(fn), "format_spec.endswith('t')" in head and 'truncate = True' in head and 'format_spec = format_spec[:-1]' in head
-          and 'result = super().format_field(value, format_spec)' in head,
-          'the trailing t switches truncation on and is stripped before the standard formatting', key='FMT-truncation-code|flag')
+    # the part before the standard formatting is interpreted: for every spelling of the spec, `truncate` says whether it ended in t and the t is gone
+    std_at = next((i for i, st in enumerate(fn.body[:start]) if isinstance(st, ast.Assign) and u(st.targets[0]) == 'result'
+                   and u(st.value) == 'super().format_field(value, format_spec)'), None)
+    flag_ok = std_at is not None
+    detail = ''
+    if flag_ok:
+        for given in ('8t', '8', '<5st', '>10.3ft', '', 't', 'tt', '^4'):
+            env_h = {'format_spec': given}
+            try:
+                interp.run_stmts(fn.body[:std_at], env_h)
+            except interp.Returned:
+                flag_ok, detail = False, 'returns before the standard formatting'
+                break
+            except interp.Unsupported as err:
+                flag_ok, detail = False, 'code outside the interpretable fragment: {}'.format(err)
+                break
+            want_spec = given[:-1] if given.endswith('t') else given
+            if env_h.get('truncate') is not given.endswith('t') or env_h.get('format_spec') != want_spec:
+                flag_ok, detail = False, 'for the spec {!r}: truncate={!r}, spec handed on={!r}'.format(given, env_h.get('truncate'), env_h.get('format_spec'))
+                break
+    ck.ob('FMT-truncation-code', tf.loc(fn), flag_ok,
+          'the trailing t switches truncation on and is stripped before the standard formatting (8 spellings interpreted){}'.format(' -- ' + detail if detail else ''),
+          key='FMT-truncation-code|flag')
     seen = set()
     for label, fld in fields:
         sig = (fld.align, fld.type, fld.width)
